@@ -203,6 +203,28 @@ Additions for data.py (the id encoders: numpy_array_is_0_indexed_integers, encod
                       template starting with `!` denotes a `result after`.  Aliasing is not modelled, as for cfg["fields"].
   if/else + `T1 | T2`   a variable declared at several types that both branches leave bound has, after the `if`, the type it
                       has at the END of the branches, which must be the same in both (refused otherwise)
+Additions for models/sparse_combo.py (the Gibbs blocks of LegacySparseDrugComboImpl, C08 links):
+  cfg["assign_effects"]  a pattern may also be an AUGMENTED assignment statement (`self.Mu[__i] += __v`, numpy's in-place
+                      fancy-index update): the statement must match the pattern's target, operator and value
+  `x.attr op= e`      x a bound variable of the owner type of the declared field `attr` (cfg["fields"]): `x.attr = x.attr op e`,
+                      where `x.attr op e` is translated like the written binary expression (so through the typed operator
+                      prims; numpy's in-place operator has the value of the out-of-place one; aliasing is not modelled)
+  if/else             a variable declared `T1 | T2` that both branches assign is NOT bound after the `if` (the branches may bind it at
+                      different types); it is poisoned like a variable only one branch assigns
+  bare `return`       in a function with cfg["implicit_return"] (a method that mutates self and returns None): the function
+                      ends with the implicit return value of the state at that point.  Without cfg["implicit_return"]
+                      it stays `return None`.
+  cfg["try_prims"]    [(expression pattern with holes, Gallina template, {hole: type}, Gallina pattern of a successful answer
+                      over {x}, type of the value)]:
+                          try:    T = <pattern>; S2; ...
+                          except: B                       (bare `except:` or `except Exception:`; no else / finally / `as`)
+                      where the right-hand side of the FIRST statement of the try body matches a declared pattern - the only
+                      expression of the try body that the configuration says may raise - is
+                          bind a <- template; match a with <success pattern binding x> => T = x; S2; ...; rest | _ => B; rest end
+                      i.e. the primitive's answer says whether it raised (the model's VFail answer of an MVN draw; the template
+                      denotes a computation of such an answer in the configuration's monad).  The configuration TRUSTS that no
+                      other statement of the try body raises.  Any other try statement, and continue / break / return / raise
+                      inside either part, are refused.
 """
 import ast
 
@@ -317,6 +339,9 @@ class Tr:
                             {h: parse_type(t) for h, t in (x[4] if len(x) > 4 else {}).items()})
                            for x in cfg.get("stmt_prims", [])]
         self.globals = set(rn(g) for g in cfg.get("globals", []))
+        # try/except around one declared primitive: (pattern, template, hole types, success pattern, value type)
+        self.try_prims = [(pat(x[0]), x[1], {h: parse_type(t) for h, t in x[2].items()}, x[3], parse_type(x[4]))
+                          for x in cfg.get("try_prims", [])]
         # keyword-argument calls: {callee: (template, result type, [(parameter, type, default term or None)])}
         self.kwcalls = {rn(f): (t, parse_type(ty), [(p, parse_type(pt), d) for p, pt, d in ps])
                         for f, (t, ty, ps) in cfg.get("kwcalls", {}).items()}
@@ -789,6 +814,13 @@ class Tr:
                         raise Unsupported("assignment target: " + ast.unparse(st))
             elif isinstance(st, ast.AnnAssign) and isinstance(st.target, ast.Name) and st.value is not None:
                 add(st.target.id)
+            elif isinstance(st, ast.AugAssign) and any(self.unify(patn, st, {}) for patn, _v, _t in self.assign_effects):
+                for patn, var, _t in self.assign_effects:     # an augmented store declared as an effect on a state variable
+                    if self.unify(patn, st, {}):
+                        add(var)
+                        break
+            elif isinstance(st, ast.AugAssign) and self.field_target(st.target) is not None:
+                add(self.field_target(st.target))      # x.attr op= e rebinds x
             elif isinstance(st, ast.AugAssign):
                 if isinstance(st.target, ast.Name):
                     add(st.target.id)
@@ -835,6 +867,9 @@ class Tr:
                 for c in st.cases:
                     for n in self.assigned(c.body):
                         add(n)
+            elif isinstance(st, ast.Try) and self.try_prims:
+                for n in self.assigned(st.body) + [x for h in st.handlers for x in self.assigned(h.body)]:
+                    add(n)
             else:
                 raise Unsupported("statement: " + ast.unparse(st)[:80])
         return out
@@ -1042,6 +1077,20 @@ class Tr:
                 env2[n] = t
             return self.bind_hoist(hoist, "%slet %s := %s in\n" % (ind, tuple_pat(names), v), ind) + self.block(rest, env2, k, ind)
         if isinstance(st, ast.AugAssign):
+            for patn, var, tmpl in self.assign_effects:      # an augmented store declared as an effect (cfg["assign_effects"])
+                binds = {}
+                if self.unify(patn, st, binds):
+                    if var not in env or env[var] == ("unit",):
+                        raise Unsupported("assignment effect on an unbound state variable: " + var)
+                    args = {kk[2:]: self.expr(v, env, hoist)[0] for kk, v in binds.items()}
+                    args["state"] = var
+                    if tmpl.startswith("!"):
+                        return self.bind_hoist(hoist, "%s%s %s <- %s;\n" % (ind, self.M["bind"], var, tmpl[1:].format(**args)), ind) + self.block(rest, env, k, ind)
+                    return self.bind_hoist(hoist, "%slet %s := %s in\n" % (ind, var, tmpl.format(**args)), ind) + self.block(rest, env, k, ind)
+            if self.field_target(st.target) is not None:      # x.attr op= e  is  x.attr = x.attr op e
+                load = ast.Attribute(value=ast.Name(id=st.target.value.id, ctx=ast.Load()), attr=st.target.attr, ctx=ast.Load())
+                return self.field_store(st.target.value.id, st.target.attr, ast.BinOp(left=load, op=st.op, right=st.value), False,
+                                        env, hoist, rest, k, ind)
             if isinstance(st.target, ast.Name):
                 n = st.target.id
                 if n not in env or env[n] == ("unit",):
@@ -1093,6 +1142,8 @@ class Tr:
             return k(env, jump="break")
         if isinstance(st, ast.While):
             return self.while_loop(st, rest, env, k, ind)
+        if isinstance(st, ast.Return) and st.value is None and self.cfg.get("implicit_return") is not None:
+            return k(env, jump=("return_implicit",))     # a bare `return` of a method that denotes its final state
         if isinstance(st, ast.Return):
             if st.value is None:
                 st = ast.Return(value=ast.Constant(value=None))     # `return` is `return None`
@@ -1132,7 +1183,8 @@ class Tr:
                 raise Unsupported("an if with a branch that may, but need not, continue/return/break: " + ast.unparse(st.test))
             allv = self.assigned(st.body + st.orelse)
             vs = [v for v in allv if v in env and env[v] != ("unit",)]
-            both = [v for v in allv if v not in vs and v in self.plainly_assigned(st.body) and v in self.plainly_assigned(st.orelse)]
+            both = [v for v in allv if v not in vs and v in self.plainly_assigned(st.body) and v in self.plainly_assigned(st.orelse)
+                    and self.vars.get(v, ("",))[0] != "alt"]     # declared `T1 | T2`: the branches may bind it at different types - not carried
             vs = [v for v in allv if v in vs or v in both]     # assigned on both paths: bound afterwards
             dropped = [v for v in allv if v not in vs]
             ret = lambda env2, jump=None: "%s    %s %s\n" % (ind, self.M["ok"], tuple_term(vs)) if jump is None else self.unsupported("jump in if")
@@ -1158,6 +1210,8 @@ class Tr:
             return self.loop(st, rest, env, k, ind)
         if isinstance(st, ast.Match):
             return self.block([self.match_to_if(st)] + rest, env, k, ind)
+        if isinstance(st, ast.Try) and self.try_prims:
+            return self.try_stmt(st, rest, env, k, ind)
         if isinstance(st, ast.With):
             x, ctx = self.with_item(st)
             if self.has_jump(st.body, (ast.Continue,) if self.cfg.get("with_return") else (ast.Continue, ast.Return)):
@@ -1213,6 +1267,37 @@ class Tr:
         else:
             txt = "%slet %s : %s := %s in\n" % (ind, var, coq_type(after), tmpl.format(**args))
         return self.bind_hoist(hoist, txt, ind) + self.block(rest, env2, k, ind)
+    # ---- try / except around one declared primitive (cfg["try_prims"])
+    def try_stmt(self, st, rest, env, k, ind):
+        """try: T = <declared primitive>; S2 ... except: B   ->   bind a <- template; match a with ok x => T = x; S2 ...; rest | _ => B; rest end"""
+        if st.orelse or st.finalbody or len(st.handlers) != 1:
+            raise Unsupported("try statement other than try / one except")
+        h = st.handlers[0]
+        if h.name is not None or not (h.type is None or (isinstance(h.type, ast.Name) and h.type.id == rn("Exception"))):
+            raise Unsupported("except clause other than a bare `except:` / `except Exception:`")
+        jumps = (ast.Continue, ast.Return, ast.Break, ast.Raise)
+        if any(isinstance(n, jumps) for part in (st.body, h.body) for x in part for n in ast.walk(x)):
+            raise Unsupported("continue / break / return / raise inside try / except")
+        first = st.body[0]
+        if not (isinstance(first, ast.Assign) and len(first.targets) == 1):
+            raise Unsupported("try body that does not start with an assignment of a declared primitive")
+        for patn, tmpl, argtys, okpat, vty in self.try_prims:
+            binds = {}
+            if self.unify(patn, first.value, binds):
+                hoist, args = [], {}
+                for kk, v in binds.items():
+                    a, at = self.expr(v, env, hoist)
+                    args[kk[2:]] = self.need(a, at, argtys[kk[2:]], hoist) if kk[2:] in argtys else a
+                ans, val = self.new("a"), self.new("tryval")
+                env_ok = dict(env)
+                env_ok[val] = vty
+                ok_first = ast.copy_location(ast.Assign(targets=first.targets, value=ast.Name(id=val, ctx=ast.Load())), first)
+                t_ok = self.block([ok_first] + list(st.body[1:]) + rest, env_ok, k, ind + "    ")
+                t_ex = self.block(list(h.body) + rest, env, k, ind + "    ")
+                txt = "%s%s %s <- %s;\n%smatch %s with\n%s| %s =>\n%s%s| _ =>\n%s%send\n" % (
+                    ind, self.M["bind"], ans, tmpl.format(**args), ind, ans, ind, okpat.format(x=val), t_ok, ind, t_ex, ind)
+                return self.bind_hoist(hoist, txt, ind)
+        raise Unsupported("try body whose first statement is not a declared primitive: " + ast.unparse(first)[:80])
 
     # ---- with blocks (cfg["contexts"]) and statement-run primitives (cfg["stmt_prims"])
     def with_item(self, st):
@@ -1615,7 +1700,7 @@ class Tr:
                 return "%s  %s (%s)\n" % (ind, self.M["ok"], ", ".join([jump[1]] + self.return_state))
             if isinstance(jump, tuple) and jump[0] == "return":
                 return "%s  %s %s\n" % (ind, self.M["ok"], jump[1])
-            if jump is None and cfg.get("implicit_return") is not None:
+            if (jump is None or jump == ("return_implicit",)) and cfg.get("implicit_return") is not None:
                 return "%s  %s %s\n" % (ind, self.M["ok"], cfg["implicit_return"].format(**{v[:-len(SUFFIX)]: v for v in env2 if v.endswith(SUFFIX)}))
             raise Unsupported("function may end without a return" if jump is None else "continue outside a loop")
 
